@@ -251,8 +251,17 @@ def main(tier, seed):
             fa = read_all(os.path.join(d, "attr", "out_" + b))
             fb = read_all(os.path.join(d, "base", "out_" + b))
             if b == "demo_gen":
-                # the js/ sub-directory is produced by a nested run of the *js* backend (its conditions are js's, checked by
-                # the js run above); demo_gen's own files are the per-type demo modules and index.mjs next to it
+                # the js/ sub-directory is produced by a nested run of the *js* backend: its conditions are js's, so it must be the very
+                # output of the js run above (seed C13-h: the bundled bindings generated from the context lowered for demo_gen)
+                bundled = {p[3:]: t for p, t in fa.items() if p.startswith("js/")}
+                js_out = read_all(os.path.join(d, "attr", "out_js")) if os.path.isdir(os.path.join(d, "attr", "out_js")) else None
+                if js_out is not None and bundled:
+                    out["cmp"] += len(js_out)
+                    if bundled != js_out:
+                        diff = sorted(p for p in set(bundled) | set(js_out) if bundled.get(p) != js_out.get(p))
+                        out["viol"].append((b, batch[0][0], "bundled-js", batch[0][2], "-", "the JS bindings demo_gen bundles under js/ differ from the js backend's output for the same source "
+                                            "(%d files, e.g. %s): conditions there must evaluate as they do for js" % (len(diff), diff[:3])))
+                # demo_gen's own files are the per-type demo modules and index.mjs next to it
                 fa = {p: t for p, t in fa.items() if not p.startswith(("js/", "rendering/"))}
                 fb = {p: t for p, t in fb.items() if not p.startswith(("js/", "rendering/"))}
             # the legacy spelling of a backend's name (`c2`, `cpp2`, `js2`, `dart2`: "the HIR backends used to be named ...") selects the same
